@@ -407,3 +407,70 @@ def c03h(ctx):
                 ok = contains(k.value, lambda y: isinstance(y, ast.Constant) and y.value == k.arg)
                 ctx.check(ok, 'GridConfiguration.tile_grid:%s-from-conf' % k.arg, 'tile_grid(%s=...) is read from the grid configuration key %r' % (k.arg, k.arg), ld, x,
                           fail='tile_grid(%s=%s) is not the configured %r' % (k.arg, unparse(k.value)[:40], k.arg))
+
+
+@rule('C03.i', floor=4)
+def c03i(ctx):
+    """the tile found for a point contains that point: TileGrid.tile measures the row from the same edge that TileGrid.tile_bbox
+    anchors the rows at -- the top edge (bbox[3]) on a grid whose rows count from the top, the bottom edge (bbox[1]) otherwise --
+    and divides by the tile span of the same axis.  (A grid whose height is not a whole number of tile rows has no other consistent
+    choice: a row computed from the other edge and flipped afterwards is shifted.)"""
+    import math  # noqa
+    from ..flow import Canon
+    tl = ctx.fn(G + ':TileGrid.tile')
+    tb = ctx.fn(G + ':TileGrid.tile_bbox')
+    px, py, plevel = tl.params[1:4]
+
+    def strip(e):
+        while isinstance(e, ast.Call) and simple_name(e) in ('int', 'float', 'floor', 'round') and e.args:
+            e = e.args[0]
+        return e
+    for flipped in (True, False):
+        cf = Canon(tl, assume={'self.flipped_y_axis': flipped})
+        rets = [r for r in returns_of(tl.node) if r.value is not None and tl.cfg.node_of.get(id(r)) not in cf.infeasible]
+        forms = [cf.expr(r.value) for r in rets]
+        ok = bool(forms) and all(isinstance(f, ast.Tuple) and len(f.elts) == 3 for f in forms)
+        detail = ''
+        for f in forms if ok else []:
+            for k, (p, lo) in enumerate(((px, 0), (py, 3 if flipped else 1))):
+                e = strip(f.elts[k])
+                want_num = '%s-self.bbox[0]' % p if k == 0 else ('self.bbox[3]-%s' % p if flipped else '%s-self.bbox[1]' % p)
+                good = isinstance(e, ast.BinOp) and isinstance(e.op, ast.Div) and unparse(e.left).replace(' ', '') == want_num and \
+                    factors(strip(e.right)) == sorted(['self.resolution(%s)' % plevel, 'self.tile_size[%d]' % k])
+                if not good:
+                    ok = False
+                    detail = 'component %d is %s' % (k, unparse(e)[:80])
+        label = 'rows-from-top' if flipped else 'rows-from-bottom'
+        ctx.check(ok, 'TileGrid.tile:%s' % label,
+                  'on a grid whose rows count from the %s the row is (%s) / (resolution * tile height), the column (x - bbox[0]) / (resolution * tile width)' % (
+                      'top' if flipped else 'bottom', 'bbox[3] - y' if flipped else 'y - bbox[1]'), tl,
+                  fail='TileGrid.tile does not measure the tile index from the edge the rows are anchored at (%s): the tile found for a point '
+                       'does not contain it on grids that do not end on a tile border' % detail)
+        # tile_bbox anchors the rows at the same edge
+        cb = Canon(tb, assume={'self.flipped_y_axis': flipped})
+        rets = [r for r in returns_of(tb.node) if r.value is not None and tb.cfg.node_of.get(id(r)) not in cb.infeasible]
+        forms = [cb.expr(r.value) for r in rets if isinstance(r.value, ast.Tuple) and len(r.value.elts) == 4 and
+                 not any(is_call(e, 'max', 'min') for e in r.value.elts)]
+        anchor = 'self.bbox[3]' if flipped else 'self.bbox[1]'
+        other = 'self.bbox[1]' if flipped else 'self.bbox[3]'
+        ok = bool(forms)
+        for f in forms:
+            ys = [unparse(f.elts[1]).replace(' ', ''), unparse(f.elts[3]).replace(' ', '')]
+            ok = ok and all(anchor in t and other not in t for t in ys)
+        ctx.check(ok, 'TileGrid.tile_bbox:%s' % label, 'the rows of the tile rectangles are anchored at %s' % anchor, tb,
+                  fail='TileGrid.tile_bbox does not anchor the rows at %s on a grid whose rows count from the %s' % (anchor, 'top' if flipped else 'bottom'))
+
+
+@rule('C03.j', floor=4)
+def c03j(ctx):
+    """shared rules, re-evaluated for this property: the public tile address is mapped to the grid level first and flipped in that
+    level's matrix, for exactly the combinations of request and grid origin that differ (C02.a, C02.b)"""
+    sub = run_property(ctx.repo, 'C02', ctx.tier, only={'C02.a', 'C02.b'})
+    for er in sub.errors:
+        raise Undecided('shared rule %s: %s' % er)
+    for o in sub.obs:
+        if o.status == 'ok':
+            ctx.ok('%s:%s' % (o.rule, o.construct), o.msg, o.where)
+        else:
+            ctx.bad('%s:%s' % (o.rule, o.construct), o.msg, o.where)
+    ctx.stats['functions'] |= sub.stats['functions']
